@@ -519,12 +519,15 @@ theorem QInv.step {x : Sys} {outs : List Out} (h : QInv x.s outs) (op : Op) :
   | cancel q => simpa [Client.step] using h.cancel q
   | complete n r => simpa [Client.step] using h.complete n r
   | msg p hs ds bs => simpa [Client.step] using h.incoming p hs ds bs
-  | sending p st =>
+  | sending p src st =>
     simp only [Client.step, List.append_nil]
     unfold sendingChanged
     split
-    · exact h.of_eq rfl rfl rfl rfl rfl rfl rfl
     · exact h
+    · unfold setSending
+      split
+      · exact h.of_eq rfl rfl rfl rfl rfl rfl rfl
+      · exact h
   | tick ms => simpa [Client.step] using h
   | drain pref => simpa [Client.step] using h.drain x.now x.seq pref
   | takeNewBlocks =>
